@@ -18,14 +18,14 @@ namespace Gfa.C03
 open G C09 C02
 
 /-- real lines of the Gfa stay lines of the Gfa -/
-def Keeps (st st' : St) : Prop := ∀ q ∈ st.lines, q.rt ≠ .unk → q ∈ st'.lines
+def Keeps (st st' : St) : Prop := ∀ q ∈ st.lines, q.rt ≠ .unk → q.virt = false → q ∈ st'.lines
 
-theorem Keeps.refl (st : St) : Keeps st st := fun _ h _ => h
+theorem Keeps.refl (st : St) : Keeps st st := fun _ h _ _ => h
 theorem Keeps.trans {a b c : St} (h1 : Keeps a b) (h2 : Keeps b c) : Keeps a c :=
-  fun q hq hr => h2 q (h1 q hq hr) hr
+  fun q hq hr hv => h2 q (h1 q hq hr hv) hr hv
 
 theorem keeps_append (st : St) (r : Rec) : Keeps st { st with lines := st.lines ++ [r] } :=
-  fun q hq _ => by simp [hq]
+  fun q hq _ _ => by simp [hq]
 
 theorem mem_set_of_ne (l : List Rec) (i : Nat) (r q : Rec) (hq : q ∈ l) (hne : q ≠ l.getD i default) : q ∈ l.set i r := by
   obtain ⟨j, hj, rfl⟩ := List.getElem_of_mem hq
@@ -47,7 +47,7 @@ theorem ensureSeg_keeps (st st' : St) (n : String) (he : ensureSeg st n = .ok st
     · split at he
       · rename_i hunk
         injection he with he; subst he
-        intro q hq hr
+        intro q hq hr _
         apply mem_set_of_ne _ _ _ _ hq
         intro h; rw [h] at hr; exact hr hunk
       · cases he
@@ -86,7 +86,18 @@ theorem ensureLinks_keeps (ls : List Link) : ∀ (st st' : St), ensureLinks st l
       simp only [h1, Except.bind] at he
       have k1 := ensureSegs_keeps _ st st1 h1
       split at he
-      · exact k1.trans (ih st1 st' he)
+      · rename_i i hfound
+        refine k1.trans (Keeps.trans ?_ (ih _ st' he))
+        -- only a placeholder link is rewritten
+        intro q hq _ hv
+        obtain ⟨hi, _⟩ := findIdx_some_lt _ _ _ hfound
+        by_cases hqi : q = st1.lines.getD i default
+        · have : adoptOverlap l (st1.lines.getD i default) = q := by
+            rw [← hqi]; unfold adoptOverlap; split
+            · simp [hv]
+            · rfl
+          rw [this]; exact mem_set_self' _ _ _ hi
+        · exact mem_set_of_ne _ _ _ _ hq hqi
       · exact k1.trans ((keeps_append st1 _).trans (ih _ st' he))
 
 theorem ensureRefs_keeps (st st' : St) (r : Rec) (he : ensureRefs st r = .ok st') : Keeps st st' := by
@@ -142,7 +153,7 @@ theorem add_defines (st st' : St) (r : Rec) (n : String) (hv : r.virt = false) (
     · split at ho
       · unfold substitute at ho
         have k := ensureRefs_keeps _ st' r ho
-        exact ⟨r, k r (by simpa [replaceAt] using mem_set_self' st.lines i r hi) hrt, hn, hv⟩
+        exact ⟨r, k r (by simpa [replaceAt] using mem_set_self' st.lines i r hi) hrt hv, hn, hv⟩
       · cases ho
     · split at ho
       · rename_i hgrp
@@ -152,7 +163,7 @@ theorem add_defines (st st' : St) (r : Rec) (n : String) (hv : r.virt = false) (
         · rename_i tg _
           have k := ensureRefs_keeps _ st' r ho
           obtain ⟨_, hne⟩ := name_group r n hgrp.1 hn
-          refine ⟨_, k _ (by simpa [replaceAt] using mem_set_self' st.lines i _ hi) (by rcases hgrp.1 with h | h <;> simp [h]), ?_, rfl⟩
+          refine ⟨_, k _ (by simpa [replaceAt] using mem_set_self' st.lines i _ hi) (by rcases hgrp.1 with h | h <;> simp [h]) rfl, ?_, rfl⟩
           rcases hgrp.1 with h | h <;> simp [Rec.name, h, fld, hne]
       · cases ho
 
